@@ -3,6 +3,7 @@
 package main
 
 import (
+	"encoding/json"
 	"flag"
 	"fmt"
 	"os"
@@ -24,6 +25,7 @@ func main() {
 	goos := flag.String("goos", "", "GOOS to analyse")
 	goarch := flag.String("goarch", "", "GOARCH to analyse")
 	tags := flag.String("tags", "", "build tags")
+	selftest := flag.String("selftest", "", "JSON file with the results of the checker's mutation self-test (thorough tier)")
 	flag.Parse()
 	seed, _ := strconv.Atoi(os.Getenv("VERIF_SEED"))
 
@@ -83,6 +85,30 @@ func main() {
 			fmt.Printf("analysed configuration {%s}: %d packages, %d repo functions\n", name, len(prog.Pkgs), len(prog.RepoFuncs()))
 		}
 		rep.Analysed["configurations"] = cfgNames
+		if *selftest != "" {
+			var st struct {
+				Mutants []map[string]interface{} `json:"mutants"`
+				Error   string                   `json:"error"`
+			}
+			if b, err := os.ReadFile(*selftest); err == nil && json.Unmarshal(b, &st) == nil {
+				rep.Analysed["checker_selftest"] = st.Mutants
+				killed, skipped := 0, 0
+				for _, m := range st.Mutants {
+					switch m["status"] {
+					case "killed":
+						killed++
+					case "skipped":
+						skipped++
+					case "MISSED":
+						rep.Unknown(fmt.Sprintf("checker-selftest/%v", m["mutant"]), "a change known to break the property (reverse patch of a fix / seeded patch) must be reported with its obligation key", "", fmt.Sprintf("mutant applied to a scratch copy was NOT reported (expected %v): the checker lost this detection", m["expect"]))
+					}
+				}
+				fmt.Printf("checker self-test: %d mutants, %d killed, %d skipped (do not apply to this tree)\n", len(st.Mutants), killed, skipped)
+				if st.Error != "" {
+					fmt.Printf("checker self-test: %s\n", st.Error)
+				}
+			}
+		}
 		code = rep.Finish(kf, evPath, seed)
 	}()
 	os.Exit(code)
